@@ -18,9 +18,11 @@ package service
 //@   mode wrap
 //@   props C06 C05 C07
 //@   requires handlerWF(its) && its.currentCP != nil && its.initialCP != nil && its.datatypeDoc != nil && reqOpsWF(its.gotPushPullPack.Operations)
-//@   requires len(its.pushingOperations) == 0
+//@   requires len(its.pushingOperations) == 0 && its.gotPushPullPack.CheckPoint != nil
+//@   requires[lock-held] its.lock != nil && sel(G.held, its.lock)
 //@   requires its.datatypeDoc.Sseq.End < 4611686018427387904 && its.currentCP.Cseq < 4611686018427387904
 //@   loop 0 invariant[frame]       its.datatypeDoc == old(its.datatypeDoc) && its.currentCP == old(its.currentCP) && its.datatypeDoc.Sseq.End == old(its.datatypeDoc.Sseq.End)
+//@   loop 0 invariant[other-checkpoints] forall c *model.CheckPoint :: c != its.currentCP ==> c.Sseq == old(c.Sseq) && c.Cseq == old(c.Cseq)
 //@   loop 0 invariant[bounds]      0 <= len(its.pushingOperations) && len(its.pushingOperations) <= rangeindex + 1 && rangeindex + 1 <= len(its.gotPushPullPack.Operations)
 //@   loop 0 invariant[sseq]        its.currentCP.Sseq == its.datatypeDoc.Sseq.End + len(its.pushingOperations)
 //@   loop 0 invariant[cseq]        its.currentCP.Cseq == old(its.currentCP.Cseq) + len(its.pushingOperations)
@@ -32,8 +34,10 @@ package service
 //@   ensures[client-order]  !its.isReadOnly ==> (forall k int :: 0 <= k && k < len(its.pushingOperations) ==> its.pushingOperations[k].(*schema.OperationDoc).OpID.Seq == old(its.currentCP.Cseq) + 1 + k)
 //@   ensures[cp-sseq]       !its.isReadOnly ==> its.currentCP.Sseq == old(its.datatypeDoc.Sseq.End) + len(its.pushingOperations)
 //@   ensures[cp-cseq]       !its.isReadOnly ==> its.currentCP.Cseq == old(its.currentCP.Cseq) + len(its.pushingOperations)
-//@   ensures[end-untouched] its.datatypeDoc.Sseq.End == old(its.datatypeDoc.Sseq.End)
-//@   modifies PushPullHandler.pushingOperations, model.CheckPoint.Sseq, model.CheckPoint.Cseq, schema.OperationDoc.*, errors.singleOrdaError.Code
+//@   ensures[end-untouched] its.datatypeDoc.Sseq.End == old(its.datatypeDoc.Sseq.End) && its.datatypeDoc == old(its.datatypeDoc) && its.currentCP == old(its.currentCP)
+//@   ensures[bounded] len(its.pushingOperations) <= len(its.gotPushPullPack.Operations)
+//@   ensures[other-checkpoints-untouched] forall c *model.CheckPoint :: c != its.currentCP ==> c.Sseq == old(c.Sseq) && c.Cseq == old(c.Cseq)
+//@   modifies PushPullHandler.pushingOperations, model.CheckPoint.Sseq, model.CheckPoint.Cseq
 
 // pullOperations: the reply carries the stored operations after the request's checkpoint and the
 // new checkpoint is the end of the log including what this request appends (C05, C06).
@@ -41,16 +45,19 @@ package service
 //@   mode wrap
 //@   props C05 C06 C07
 //@   requires handlerWF(its) && its.currentCP != nil && its.datatypeDoc != nil && its.resPushPullPack != nil && its.gotPushPullPack.CheckPoint != nil
-//@   requires[log-invariant] its.datatypeDoc.Sseq.End == G.stored && G.stored < 4611686018427387904 && len(its.pushingOperations) < 1073741824 && its.gotPushPullPack.CheckPoint.Sseq < 4611686018427387904
+//@   requires[log-invariant] its.datatypeDoc.Sseq.End == G.stored && G.stored < 4611686018427387904 && its.gotPushPullPack.CheckPoint.Sseq < 4611686018427387904
 //@   requires[after-push] !its.isReadOnly ==> its.currentCP.Sseq == its.datatypeDoc.Sseq.End + len(its.pushingOperations)
 //@   requires[own-checkpoint-object] its.currentCP != its.gotPushPullPack.CheckPoint
+//@   requires[cp-within-log] its.isReadOnly ==> its.currentCP.Sseq <= G.stored && len(its.pushingOperations) == 0
+//@   requires[lock-held] its.lock != nil && sel(G.held, its.lock)
 //@   ensures[volatile-pulls-nothing] its.clientDoc.Type == model.ClientType_VOLATILE ==> result == nil && its.currentCP.Sseq == old(its.currentCP.Sseq) && len(its.resPushPullPack.Operations) == old(len(its.resPushPullPack.Operations))
 //@   ensures[pulls-all-after-request-checkpoint] result == nil && its.clientDoc.Type != model.ClientType_VOLATILE && its.datatypeDoc.Sseq.Begin <= its.gotPushPullPack.CheckPoint.Sseq + 1 && !its.gotOption.HasSnapshotBit() ==> len(its.resPushPullPack.Operations) == (its.gotPushPullPack.CheckPoint.Sseq < G.stored ? G.stored - its.gotPushPullPack.CheckPoint.Sseq : 0)
 //@   ensures[pulled-in-log-order] result == nil && its.clientDoc.Type != model.ClientType_VOLATILE && its.datatypeDoc.Sseq.Begin <= its.gotPushPullPack.CheckPoint.Sseq + 1 && !its.gotOption.HasSnapshotBit() ==> (forall i int :: 0 <= i && i < len(its.resPushPullPack.Operations) ==> its.resPushPullPack.Operations[i].$sseq == its.gotPushPullPack.CheckPoint.Sseq + 1 + i)
 //@   ensures[checkpoint-is-new-end] result == nil && !its.isReadOnly ==> its.currentCP.Sseq == G.stored + len(its.pushingOperations)
+//@   ensures[readonly-within-log] its.isReadOnly ==> its.currentCP.Sseq <= G.stored
 //@   ensures[cseq-untouched] its.currentCP.Cseq == old(its.currentCP.Cseq)
 //@   ensures[request-untouched] its.gotPushPullPack.CheckPoint.Sseq == old(its.gotPushPullPack.CheckPoint.Sseq)
-//@   modifies model.CheckPoint.Sseq, model.PushPullPack.Operations, errors.singleOrdaError.Code, model.Operation.$sseq
+//@   modifies model.CheckPoint.Sseq, model.PushPullPack.Operations
 
 // commitToMongoDB: the recorded end of the log and the reply's checkpoint are the handler's
 // current checkpoint; operations are stored BEFORE the datatype document that acknowledges them.
@@ -59,16 +66,19 @@ package service
 //@   props C06 C05 C08
 //@   requires handlerWF(its) && its.currentCP != nil && its.datatypeDoc != nil && its.resPushPullPack != nil
 //@   requires[log-invariant] its.currentCP.Sseq <= G.stored + len(its.pushingOperations)
+//@   requires[lock-held] its.lock != nil && sel(G.held, its.lock)
 //@   ensures[end-is-checkpoint] its.datatypeDoc.Sseq.End == its.currentCP.Sseq
 //@   ensures[reply-checkpoint]  its.resPushPullPack.CheckPoint == its.currentCP
 //@   ensures[checkpoint-untouched] its.currentCP.Sseq == old(its.currentCP.Sseq) && its.currentCP.Cseq == old(its.currentCP.Cseq)
 //@   ensures[stored-on-success] result == nil ==> G.stored == old(G.stored) + len(its.pushingOperations)
-//@   modifies schema.DatatypeDoc.UpdatedDatatypeDoc/Sseq/End, model.PushPullPack.CheckPoint, schema.SubscribedClientDoc.At, schema.DatatypeDoc.UpdatedDatatypeDoc/UpdatedAt, errors.singleOrdaError.Code, G:stored
+//@   modifies schema.DatatypeDoc.UpdatedDatatypeDoc/Sseq/End, model.PushPullPack.CheckPoint, schema.SubscribedClientDoc.At, schema.DatatypeDoc.UpdatedDatatypeDoc/UpdatedAt, G:stored
 
 // ---------------------------------------------------------------------------------------
 // entry modes: create / subscribe / subscribe-or-create (C13), isolation (C17)
 // ---------------------------------------------------------------------------------------
 
+// the C06 invariant as seen by one handler: the loaded document's end of log is what is stored
+//@ pred logInv(h *PushPullHandler) = h.datatypeDoc.Sseq.End == G.stored && G.stored < 4611686018427387904
 //@ pred optCreate(h *PushPullHandler) = h.gotOption.HasCreateBit()
 //@ pred optSubscribe(h *PushPullHandler) = h.gotOption.HasSubscribeBit()
 
@@ -80,6 +90,7 @@ package service
 //@   ensures[error]          (result1 != nil) == (result0 == caseError)
 //@   ensures[nothing]        (result0 == caseMatchNothing) == (result1 == nil && its.datatypeDoc == nil)
 //@   ensures[doc-wf]         its.datatypeDoc != nil ==> mongodb.docWF(its.datatypeDoc)
+//@   ensures[log-inv]        result1 == nil ==> (its.datatypeDoc != nil ? logInv(its) : G.stored == 0)
 //@   ensures[doc-sep]        its.datatypeDoc != nil ==> mongodb.docSep(its.datatypeDoc, its.gotPushPullPack.CheckPoint)
 //@   ensures[by-key]         result0 == caseMatchKeyNotType || result0 == caseAllMatchedSubscribed || result0 == caseAllMatchedNotSubscribed || result0 == caseAllMatchedNotVisible ==> its.datatypeDoc != nil && its.datatypeDoc.Key == its.gotPushPullPack.Key && its.datatypeDoc.CollectionNum == its.collectionDoc.Num
 //@   ensures[type-differs]   result0 == caseMatchKeyNotType ==> its.datatypeDoc.Type != model.dtTypeName(its.gotPushPullPack.Type)
@@ -89,7 +100,7 @@ package service
 //@   ensures[by-id]          result0 == caseUsedDUID ==> its.datatypeDoc != nil && its.datatypeDoc.DUID == its.DUID
 //@   ensures[same-collection] its.datatypeDoc != nil ==> its.datatypeDoc.CollectionNum == its.collectionDoc.Num
 //@   ensures[range]          result0 == caseError || result0 == caseMatchNothing || result0 == caseUsedDUID || result0 == caseMatchKeyNotType || result0 == caseAllMatchedSubscribed || result0 == caseAllMatchedNotSubscribed || result0 == caseAllMatchedNotVisible
-//@   modifies PushPullHandler.datatypeDoc, errors.singleOrdaError.Code, @mongodb.(*MongoCollections).GetDatatype
+//@   modifies PushPullHandler.datatypeDoc
 
 //@ func (*PushPullHandler).initClientInfoWithDatatypeDoc
 //@   mode wrap
@@ -99,14 +110,15 @@ package service
 //@   ensures[own-checkpoint-object] its.currentCP != its.gotPushPullPack.CheckPoint && mongodb.docSep(its.datatypeDoc, its.gotPushPullPack.CheckPoint)
 //@   ensures[request-untouched] its.gotPushPullPack.CheckPoint != nil ==> its.gotPushPullPack.CheckPoint.Sseq == old(its.gotPushPullPack.CheckPoint.Sseq) && its.gotPushPullPack.CheckPoint.Cseq == old(its.gotPushPullPack.CheckPoint.Cseq)
 //@   ensures[never-fails] result == nil
-//@   ensures[cp-set]      its.currentCP != nil
+//@   ensures[cp-within-log] its.currentCP.Sseq <= its.datatypeDoc.Sseq.End
+//@   ensures[cp-set]      mongodb.cpOK(its.currentCP)
 //@   ensures[initial-set] its.initialCP != nil
 //@   ensures[initial-is-copy] its.initialCP != its.currentCP
 //@   ensures[same-cp] its.initialCP.Sseq == its.currentCP.Sseq && its.initialCP.Cseq == its.currentCP.Cseq
 //@   ensures[known-client-keeps-checkpoint] old(its.datatypeDoc.GetClientInDatatypeDoc(its.CUID, its.isReadOnly)) != nil ==> its.subClientDoc == old(its.datatypeDoc.GetClientInDatatypeDoc(its.CUID, its.isReadOnly)) && its.currentCP == its.subClientDoc.CP
 //@   ensures[new-client-starts-at-zero] old(its.datatypeDoc.GetClientInDatatypeDoc(its.CUID, its.isReadOnly)) == nil ==> its.currentCP.Sseq == 0 && its.currentCP.Cseq == 0
 //@   ensures[doc-kept] its.datatypeDoc == old(its.datatypeDoc) && mongodb.docWF(its.datatypeDoc)
-//@   modifies PushPullHandler.subClientDoc, PushPullHandler.currentCP, PushPullHandler.initialCP, map[string]*schema.SubscribedClientDoc, schema.SubscribedClientDoc.*, model.CheckPoint.*
+//@   modifies PushPullHandler.subClientDoc, PushPullHandler.currentCP, PushPullHandler.initialCP, map[string]*schema.SubscribedClientDoc @ its.datatypeDoc.RWClients, map[string]*schema.SubscribedClientDoc @ its.datatypeDoc.ROClients
 
 // ---------------------------------------------------------------------------------------
 // the request path: validate, initialise, lock, reply exactly once (C12, C16, C18)
@@ -121,7 +133,7 @@ package service
 //@   ensures[readonly-cannot-create] its.isReadOnly && its.gotOption.HasCreateBit() ==> result != nil
 //@   ensures[readonly-cannot-push]   its.isReadOnly && len(its.gotPushPullPack.Operations) > 0 ==> result != nil
 //@   ensures[otherwise-accepted]     !its.isReadOnly ==> result == nil
-//@   modifies errors.singleOrdaError.Code
+//@   modifies nothing
 
 //@ func (*PushPullHandler).initialize
 //@   mode wrap
@@ -129,7 +141,7 @@ package service
 //@   requires handlerWF(its) && its.gotPushPullPack.CheckPoint != nil
 //@   ensures[reply-prepared] result == nil && its.retCh == retCh && its.resPushPullPack != nil && fresh(its.resPushPullPack) && its.resPushPullPack.CheckPoint != nil
 //@   ensures[reply-names-the-datatype] its.resPushPullPack.Key == its.gotPushPullPack.Key && its.resPushPullPack.DUID == its.gotPushPullPack.DUID && its.resPushPullPack.Option == 0 && len(its.resPushPullPack.Operations) == 0
-//@   modifies PushPullHandler.retCh, PushPullHandler.resPushPullPack, model.PushPullPack.*, model.CheckPoint.*
+//@   modifies PushPullHandler.retCh, PushPullHandler.resPushPullPack
 
 // The lock name identifies (collection, key): different datatypes never share a lock.
 //@ func (*PushPullHandler).getLockKey
@@ -146,25 +158,27 @@ package service
 //@   props C12 C16 C18
 //@   requires handlerWF(its) && its.lock != nil
 //@   requires[reply-prepared] its.resPushPullPack != nil && its.retCh != nil
-//@   requires[lock-held]      sel(G.held, its.lock)
+//@   requires[locked-flag-is-exact] its.locked == sel(G.held, its.lock)
 //@   requires[success-state]  its.err == nil ==> its.initialCP != nil && its.currentCP != nil
 //@   ensures[exactly-one-reply] sent(its.retCh) == old(sent(its.retCh)) + 1
 //@   ensures[lock-released]   !sel(G.held, its.lock)
 //@   ensures[announce-iff-stored] spawned("service.(*PushPullHandler).finalize$1") == old(spawned("service.(*PushPullHandler).finalize$1")) + (its.err == nil && len(its.pushingOperations) > 0 ? 1 : 0)
 //@   ensures[error-reply]     its.err != nil ==> its.resPushPullPack.GetPushPullPackOption().HasErrorBit() && len(its.resPushPullPack.Operations) == old(len(its.resPushPullPack.Operations)) + 1
 //@   ensures[success-reply-untouched] its.err == nil ==> its.resPushPullPack.Option == old(its.resPushPullPack.Option) && len(its.resPushPullPack.Operations) == old(len(its.resPushPullPack.Operations))
-//@   modifies G:held, G:chan.sent, G:spawned:service.(*PushPullHandler).finalize$1, G:lastMarshaled, model.PushPullPack.Option, model.PushPullPack.Operations, alloc, @operations.ModelToOperation, model.Operation.*, model.OperationID.*
+//@   modifies G:held, G:chan.sent, G:spawned:service.(*PushPullHandler).finalize$1, G:lastMarshaled, model.PushPullPack.Option, model.PushPullPack.Operations
 
 //@ func (*PushPullHandler).createDatatype
 //@   mode wrap
 //@   props C13
 //@   requires handlerWF(its) && its.resPushPullPack != nil && (its.gotPushPullPack.CheckPoint != nil ==> allocated(its.gotPushPullPack.CheckPoint))
+//@   ensures[stored-untouched] G.stored == old(G.stored)
 //@   ensures[own-checkpoint-object] its.currentCP != its.gotPushPullPack.CheckPoint && mongodb.docSep(its.datatypeDoc, its.gotPushPullPack.CheckPoint)
 //@   ensures[option-untouched] deref(its.gotOption) == old(deref(its.gotOption))
 //@   ensures[new-doc]  result == nil && its.datatypeDoc != nil && fresh(its.datatypeDoc) && its.datatypeDoc.DUID == its.DUID && its.datatypeDoc.Key == its.Key && its.datatypeDoc.CollectionNum == its.collectionDoc.Num && its.datatypeDoc.Type == model.dtTypeName(its.gotPushPullPack.Type) && its.datatypeDoc.Sseq.End == 0
 //@   ensures[reply-says-created] optBit(its.resPushPullPack.Option, 1) && !optBit(its.resPushPullPack.Option, 32)
 //@   ensures[ready]    its.currentCP != nil && its.initialCP != nil && its.currentCP.Sseq == 0 && its.currentCP.Cseq == 0 && mongodb.docWF(its.datatypeDoc)
-//@   modifies PushPullHandler.datatypeDoc, PushPullHandler.subClientDoc, PushPullHandler.currentCP, PushPullHandler.initialCP, model.PushPullPack.Option, map[string]*schema.SubscribedClientDoc, schema.SubscribedClientDoc.*, model.CheckPoint.*, schema.DatatypeDoc.*, *model.PushPullPackOption
+//@   ensures[request-untouched] its.gotPushPullPack.CheckPoint != nil ==> its.gotPushPullPack.CheckPoint.Sseq == old(its.gotPushPullPack.CheckPoint.Sseq)
+//@   modifies PushPullHandler.datatypeDoc, PushPullHandler.subClientDoc, PushPullHandler.currentCP, PushPullHandler.initialCP, model.PushPullPack.Option
 
 //@ func (*PushPullHandler).subscribeDatatype
 //@   mode wrap
@@ -173,12 +187,14 @@ package service
 //@   requires[sep] mongodb.docSep(its.datatypeDoc, its.gotPushPullPack.CheckPoint) && (its.gotPushPullPack.CheckPoint != nil ==> allocated(its.gotPushPullPack.CheckPoint))
 //@   ensures[own-checkpoint-object] its.currentCP != its.gotPushPullPack.CheckPoint
 //@   ensures[option-untouched] deref(its.gotOption) == old(deref(its.gotOption))
+//@   ensures[request-untouched] its.gotPushPullPack.CheckPoint != nil ==> its.gotPushPullPack.CheckPoint.Sseq == old(its.gotPushPullPack.CheckPoint.Sseq)
+//@   ensures[cp-ok] mongodb.cpOK(its.currentCP) && its.currentCP.Sseq <= its.datatypeDoc.Sseq.End
 //@   ensures[adopts-stored-id]   result == nil && its.DUID == its.datatypeDoc.DUID && its.resPushPullPack.DUID == its.datatypeDoc.DUID
 //@   ensures[pushed-ops-dropped] len(its.gotPushPullPack.Operations) == 0
 //@   ensures[reply-says-subscribed] optBit(its.resPushPullPack.Option, 2) && !optBit(its.resPushPullPack.Option, 32)
 //@   ensures[ready]    its.currentCP != nil && its.initialCP != nil && its.datatypeDoc == old(its.datatypeDoc) && mongodb.docWF(its.datatypeDoc)
 //@   ensures[new-subscriber-starts-at-zero] old(its.datatypeDoc.GetClientInDatatypeDoc(its.CUID, its.isReadOnly)) == nil ==> its.currentCP.Sseq == 0 && its.currentCP.Cseq == 0
-//@   modifies PushPullHandler.DUID, PushPullHandler.subClientDoc, PushPullHandler.currentCP, PushPullHandler.initialCP, model.PushPullPack.Option, model.PushPullPack.DUID, model.PushPullPack.Operations, map[string]*schema.SubscribedClientDoc, schema.SubscribedClientDoc.*, model.CheckPoint.*, *model.PushPullPackOption
+//@   modifies PushPullHandler.DUID, PushPullHandler.subClientDoc, PushPullHandler.currentCP, PushPullHandler.initialCP, model.PushPullPack.Option, model.PushPullPack.DUID, model.PushPullPack.Operations, map[string]*schema.SubscribedClientDoc @ its.datatypeDoc.RWClients, map[string]*schema.SubscribedClientDoc @ its.datatypeDoc.ROClients
 
 // processSubscribeOrCreate: the refusal rows are taken from the property text (C13).
 //@ func (*PushPullHandler).processSubscribeOrCreate
@@ -186,6 +202,8 @@ package service
 //@   props C13 C16
 //@   requires handlerWF(its) && its.resPushPullPack != nil && code != caseError
 //@   requires[sep] (its.datatypeDoc != nil ==> mongodb.docSep(its.datatypeDoc, its.gotPushPullPack.CheckPoint)) && (its.gotPushPullPack.CheckPoint != nil ==> allocated(its.gotPushPullPack.CheckPoint))
+//@   requires[log-inv] its.datatypeDoc != nil ? logInv(its) : G.stored == 0
+//@   requires[ops] reqOpsWF(its.gotPushPullPack.Operations)
 //@   requires[case-facts] (code == caseMatchNothing) == (its.datatypeDoc == nil) && (its.datatypeDoc != nil ==> mongodb.docWF(its.datatypeDoc))
 //@   requires[subscribed-fact] (code == caseAllMatchedSubscribed ==> its.datatypeDoc.GetClientInDatatypeDoc(its.CUID, its.isReadOnly) != nil) && (code == caseAllMatchedNotSubscribed ==> its.datatypeDoc.GetClientInDatatypeDoc(its.CUID, its.isReadOnly) == nil)
 //@   ensures[type-mismatch-refused]      code == caseMatchKeyNotType ==> result != nil
@@ -197,4 +215,19 @@ package service
 //@   ensures[subscribes-when-matched]    old(optSubscribe(its)) && code == caseAllMatchedNotSubscribed ==> result == nil && its.datatypeDoc == old(its.datatypeDoc) && len(its.gotPushPullPack.Operations) == 0
 //@   ensures[accepted-is-ready]          result == nil ==> its.datatypeDoc != nil && mongodb.docWF(its.datatypeDoc) && its.currentCP != nil && its.initialCP != nil && its.currentCP != its.gotPushPullPack.CheckPoint
 //@   ensures[refused-creates-nothing]    result != nil ==> its.datatypeDoc == old(its.datatypeDoc)
-//@   modifies @(*PushPullHandler).createDatatype, @(*PushPullHandler).subscribeDatatype, errors.singleOrdaError.Code
+//@   ensures[accepted-keeps-log-inv]     result == nil ==> logInv(its) && mongodb.cpOK(its.currentCP) && its.currentCP.Sseq <= its.datatypeDoc.Sseq.End && reqOpsWF(its.gotPushPullPack.Operations) && G.stored == old(G.stored)
+//@   ensures[request-checkpoint-untouched] its.gotPushPullPack.CheckPoint == old(its.gotPushPullPack.CheckPoint) && (its.gotPushPullPack.CheckPoint != nil ==> its.gotPushPullPack.CheckPoint.Sseq == old(its.gotPushPullPack.CheckPoint.Sseq))
+//@   modifies @(*PushPullHandler).createDatatype, @(*PushPullHandler).subscribeDatatype
+
+// process: one request, start to finish. Everything that reads or writes the datatype document
+// happens while the lock is held; the caller gets exactly one reply on every path; the recorded
+// end of the log never exceeds what is stored.
+//@ func (*PushPullHandler).process
+//@   mode wrap
+//@   props C12 C16 C06 C08
+//@   requires handlerWF(its) && its.lock != nil && retCh != nil && its.datatypeDoc == nil && len(its.pushingOperations) == 0
+//@   requires its.gotPushPullPack.CheckPoint != nil && allocated(its.gotPushPullPack.CheckPoint) && reqOpsWF(its.gotPushPullPack.Operations) && its.gotPushPullPack.CheckPoint.Sseq < 4611686018427387904
+//@   requires[nothing-held] !sel(G.held, its.lock)
+//@   ensures[exactly-one-reply] sent(retCh) == old(sent(retCh)) + 1
+//@   ensures[lock-released]     !sel(G.held, its.lock)
+//@   modifies *
